@@ -18,6 +18,9 @@ CHECKS = {
  "C02": ("exploration", "runtime monitoring: crash-isolated worker processes with a write-ahead log of the input in flight; Go panics recovered and fatal errors attributed by the parent; step hook as budget-overrun monitor",
          "Hostile workloads (adversarial source shapes up to 64 KiB, EOF truncations, byte/token/line mutants of the repository corpus under sampled FileOptions; direct calls of every enumerated callable with edge-pool arguments; random cyclic value graphs under str/repr/==/</hash/json.encode/sorted/in/freeze) run in child processes; any panic, fatal error or budget overrun is a violation attributed to its input. Held means no crash on the inputs generated; the space is unbounded and only sampled.",
          TRUST + "Out-of-memory fatals and makeslice panics on operands with Len >= 2^31 are excluded as the property's 'single huge allocation'; calls that exceed the wall-clock guard are counted, not judged.", "§5 C02"),
+ "C04": ("exploration", "runtime monitoring: invariant hook (VerifState frozen flag of every reachable container) + attack oracle (every discovered mutator - methods via AttrNames, Go API, Starlark statements in a second module, the module's own mutating functions - must fail and leave the canonical snapshot unchanged) over generated graph-building modules; identity monitor on the predeclared dict and the Universe",
+         "Generated modules build shared/nested/cyclic object graphs with closures, defaults, bound methods, structs, host values and a loaded library, finishing normally or by error; reachability is computed through public accessors over 10 edge kinds (all must be traversed); unreachable host values must stay mutable.",
+         TRUST + "mutator discovery finds a mutator only if one of the probed argument tuples changes a small sample collection.", "§5 C04"),
  "C06": ("fault_enumeration", "runtime monitoring: invariant hooks (VerifState itercount/frozen) + Iterate/Done balance counters on host iterables, over an enumerated construct x exit-path x step-limit matrix",
          "Every cell of {list,dict,set} x iterating construct x exit path (incl. host panic and step-limit cancellation at sampled/every step index) x nesting is executed on the real VM; in-iteration probes attack the collection with every discovered effective mutator; post-conditions read the lock counter through the hook. Held means: no cell of the enumerated matrix violated; it says nothing about constructs or built-ins not in the matrix (new ones are discovered automatically by probing AttrNames/Universe).",
          TRUST + "Mutator discovery finds a mutator only if one of the probed argument tuples changes a 3-element collection.", "§5 C06"),
@@ -39,9 +42,15 @@ CHECKS = {
  "C13": ("exploration", "runtime monitoring: CPython as reference oracle behind a spec-deviation adapter, plus an independent Go slice/index oracle written from the spec; exhaustive (start, stop, step) enumeration for short receivers",
          "Index/slice triples exhaustively for lengths <= 5 (quick) / <= 8 (thorough) over five sequence types; dense enumeration of string/bytes/list methods and sequence built-ins over 3-letter alphabets; random receivers to length 40; each case evaluated through the Go API and through source text.",
          TRUST + "CPython 3.11 string/list semantics; the adapter encodes only deviations stated in doc/spec.md or fixed by the repository's own test corpus (listed in DESIGN).", "§5 C13"),
+ "C14": ("exploration", "runtime monitoring: generated-tree oracle (a syntax tree is rendered with randomised layout and minimal parentheses from the spec's operator table while the renderer records every token position; the parser's tree and positions must equal the generated ones), value-before-spelling oracle for literals, and a token-sequence monitor for near-miss texts",
+         "Syntactic trees to depth 6 over all expression and statement forms x 3-5 layouts; all 312 (operand position, child precedence level) pairs required; literal spellings (ints to 300 bits in four bases, float forms, every escape, raw/bytes/triple-quoted) decoded by an independent decoder written from the spec; single-token deletions/duplications/swaps must be rejected or keep the token sequence; the repository's annotated error corpora as self-validation.",
+         TRUST + "internal/gen renderer (validated by round-tripping the repository corpus); where the spec is silent the oracle does not judge (listed in DESIGN).", "§5 C14"),
  "C15": ("exploration", "runtime monitoring: inverse-law oracle (Eval(repr(v)) == v with same types, str(s) == s, Quote/unquote inverse) over enumerated code points / byte pairs and generated values; watchdogged printing of cyclic values",
          "Thorough is exhaustive over all 1 112 064 scalar code points and all 65 536 byte pairs; plus ints to 2^300, finite floats by bit pattern, containers to depth 6 with sharing, nine cyclic graph shapes.",
          TRUST + "structural comparison in the monitor; a cyclic print that does not return within the watchdog is inconclusive, never a violation.", "§5 C15"),
+ "C16": ("exploration", "runtime monitoring: construction-time oracle (programs are built as trees with one planted failing operation; the renderer records where every token lands; the expected call stack - names, files, lines, columns - is read from the tree and compared frame by frame with EvalError.CallStack and Backtrace), also after a Write/CompiledProgram round trip; evidence decodes the real line tables to show which delta classes were hit",
+         "Call chains of depth 1-8 through defs, closures, lambdas, loaded modules, built-in and host callbacks x 27 failing kinds x placements with line gaps to 10^5, columns to 10^4, thousands of preceding instructions, out-of-order blocks (negative deltas), multi-byte runes; coverage gate requires every saturation/sign class and boundary delta of the line-table encoding.",
+         TRUST + "internal/gen renderer; for arity/recursion failures the callee frame's position is not demanded; slices, duplicate keys, augmented targets and load are judged by span (DESIGN §9).", "§5 C16"),
  "C18": ("exploration", "runtime monitoring: reference oracles (encoding/json, an independent RFC 8259 recogniser, CPython json) judging every encode output and every decoded document; grammar-driven document generator with single-token corruptions",
          "Generated values (depth <= 6, ints to 2^200, arbitrary Unicode) round-tripped through encode/decode; generated valid documents compared with the reference data model; 39 corruption classes must be rejected; default= semantics; indent.",
          TRUST + "encoding/json, CPython json and the in-tree recogniser must agree among themselves on a document before it is judged.", "§5 C18"),
